@@ -239,6 +239,14 @@ def gen_plan(rng, cfg, tier, profile):
     plan.setdefault('db_faults', {})[str(rng.randrange(0, 12))] = ['raise', 'ioerror']
   if rng.random() < 0.3:
     plan['oversleep'] = [rng.choice([0.0, 0.0, 0.001, 0.3]) for _ in range(5)]
+  if 'hot' not in plan and 'pct_points' not in plan and rng.random() < 0.3:
+    # race-directed schedule: a thread is pre-empted where it runs carbon/cache.py code
+    # while holding no lock (the only place a check-then-act window can be), and the
+    # thread that takes over then runs on (almost) undisturbed
+    plan['p_unlocked'] = {'c': rng.choice([0.15, 0.4, 0.8])}
+    plan['p_preempt'] = rng.choice([0.0, 0.0, 0.005])
+    plan['p_lock'] = rng.choice([None, 0.3])
+    plan.pop('file_p', None)
   return plan
 
 
